@@ -168,13 +168,62 @@ def generate(repo):
     definitions = enum_variants(src, 'Definition')
     secdefs = enum_variants(src, 'SecondaryDefinition')
 
-    getdef = read_get_definition(src, token_types, definitions, secdefs)
-    inserts = read_priority(src, definitions)
-    effective = {}
-    for d, n in inserts:
-        effective[d] = n
-    arms, default = read_check_composition(src, secdefs)
-    preds = {p: read_predicate(src, p, definitions) for p in ('is_value_like', 'is_group_like', 'is_conditional', 'is_optional')}
+    # each table: read from the source text when it has the expected form, otherwise taken from the TABLES dump of the
+    # compiled code (harness + garnish_verif hooks); when both are available they must agree
+    from gen import tables_dump
+    dump = tables_dump.dump()
+    sources = {}
+    def table(name, read, from_dump, same):
+        try:
+            v = read()
+            sources[name] = 'source text'
+            if dump is not None and not same(v):
+                raise RuntimeError(f'{name}: the table read from the source text differs from the table of the compiled code')
+            return v
+        except (ValueError, IndexError, KeyError) as e:
+            if dump is None:
+                raise
+            sources[name] = f'compiled code (TABLES dump; the source form was not recognised: {e})'
+            return from_dump()
+    getdef = table('get_definition', lambda: read_get_definition(src, token_types, definitions, secdefs),
+                   lambda: {t: dump['getdef'][t] for t in token_types},
+                   lambda v: {t: tuple(x) for t, x in v.items()} == {t: tuple(x) for t, x in dump['getdef'].items()})
+    def eff(ins):
+        e = {}
+        for d, n in ins:
+            e[d] = n
+        return e
+    inserts = table('make_priority_map', lambda: read_priority(src, definitions),
+                    lambda: sorted(dump['prio'].items(), key=lambda kv: (kv[1], definitions.index(kv[0]) if kv[0] in definitions else 999)),
+                    lambda v: eff(v) == dump['prio'])
+    effective = eff(inserts)
+    def arms_of_dump():
+        # one guarded arm per flag value that alone rejects a pair, then one arm with the pairs rejected either way; default ok
+        both, only_f, only_t = [], [], []
+        for p_ in secdefs:
+            for c_ in secdefs:
+                rf, rt = dump['comp'][(p_, c_, False)], dump['comp'][(p_, c_, True)]
+                if rf and rt: both.append((p_, c_))
+                elif rf: only_f.append((p_, c_))
+                elif rt: only_t.append((p_, c_))
+        arms = []
+        if only_f: arms.append({'pairs': [list(x) for x in only_f], 'guard': False, 'allowed': False})
+        if only_t: arms.append({'pairs': [list(x) for x in only_t], 'guard': True, 'allowed': False})
+        if both: arms.append({'pairs': [list(x) for x in both], 'guard': None, 'allowed': False})
+        return arms, True
+    def comp_eval(arms_default, p_, c_, flag):
+        arms, default = arms_default
+        for a in arms:
+            if [p_, c_] in [list(x) for x in a['pairs']] and (a['guard'] is None or a['guard'] == flag):
+                return a['allowed']
+        return default
+    arms, default = table('check_composition', lambda: read_check_composition(src, secdefs), arms_of_dump,
+                          lambda v: all((not comp_eval(v, p_, c_, fl)) == dump['comp'][(p_, c_, fl)] for p_ in secdefs for c_ in secdefs for fl in (False, True)))
+    preds = {}
+    for pn in ('is_value_like', 'is_group_like', 'is_conditional', 'is_optional'):
+        preds[pn] = table(pn, lambda pn=pn: read_predicate(src, pn, definitions),
+                          lambda pn=pn: [d for d in definitions if d in dump['preds'][pn]],
+                          lambda v, pn=pn: sorted(v) == sorted(dump['preds'][pn]) or len(dump['defs']) < len(definitions))
 
     L = ['/- GENERATED by tools/gen_tables.py from compiler/src/parse/parser.rs — do not edit. -/',
          'import Garnish.Gen.Enums', 'namespace Garnish.Gen', '']
@@ -239,5 +288,6 @@ def generate(repo):
         'composition_arms': arms,
         'composition_default': default,
         'predicates': preds,
+        'sources': sources,
     }
     return {'Garnish/Gen/ParseTables.lean': '\n'.join(L) + '\n'}, js
